@@ -4,6 +4,7 @@ import (
 	"bufio"
 	"bytes"
 	"context"
+	"encoding/binary"
 	"fmt"
 	"io"
 	"io/ioutil"
@@ -256,6 +257,30 @@ func runParallel(dir string, lines []string, perInput time.Duration, workers int
 }
 
 func init() {
+	// c07.deep <shape> <n>: a dynamic value whose signature is <n> brackets deep (see sig.deep), read from the wire by
+	// value.NewValue, in a process of its own: an error (or a value), never the end of the process
+	children["c07.deep"] = func(a []string) string {
+		n, _ := strconv.Atoi(a[1])
+		sig := sigDeepText(a[0], n)
+		var b bytes.Buffer
+		binary.Write(&b, binary.LittleEndian, uint32(len(sig)))
+		b.WriteString(sig)
+		b.Write(make([]byte, 64))
+		if _, err := value.NewValue(&b); err != nil {
+			return "err"
+		}
+		return "ok"
+	}
+	executors["c07.deep"] = func(a []string) string {
+		out := runChild("c07.deep", strings.Join(a, " "), 300*time.Second, 0)
+		if out.Result != "ok" && out.Result != "err" {
+			lastFailDetail = out.Stderr
+		}
+		if out.Result == "crash-noresult" {
+			return "crash"
+		}
+		return out.Result
+	}
 	children["c07"] = childC07
 	runners["C07"] = runC07
 	// replay of one input: "c07 <entry> <hex>"
@@ -469,6 +494,14 @@ func runC07(r *Rand, tier string, o *Out) {
 		if cl != "ok" && cl != "err" {
 			o.Fail(c07Class(c, cl), fmt.Sprintf("c07 %s %s => %s (alloc=%d us=%d)", c.entry, hx(c.data), cl, results[i].alloc, results[i].micros))
 		}
+	}
+	// signatures of millions of brackets in a value read from the wire
+	for _, d := range [][2]string{{"list", "1500000"}, {"open", "3000000"}, {"map", "1200000"}} {
+		line := "c07.deep " + d[0] + " " + d[1]
+		if out := o.Do("P", line, true); out != "ok" && out != "err" {
+			o.Fail("a deeply nested signature in a value ends the process: "+out, line+" => "+out+" "+crashReason(lastFailDetail))
+		}
+		o.Count("class:deep-signature")
 	}
 	o.Extra["worst_alloc_bytes_among_ok_err"] = worstAlloc
 	o.Extra["worst_micros_among_ok_err"] = worstMicros
